@@ -332,6 +332,7 @@ func Serve(opts Options) error {
 		opts:         opts,
 	}
 	s.epool = newExprPool(s)
+	verifPoint(s, "server.started")
 	s.epc = endpoint.NewManager(s)
 	defer s.epc.Shutdown()
 	s.luascripts = s.newScriptMap()
@@ -660,6 +661,7 @@ func (s *Server) netServe() error {
 					return // close connection
 				}
 			}
+			conn = verifWrapConn(s, client, conn)
 			packet := make([]byte, 0xFFFF)
 			for {
 				var close bool
@@ -771,14 +773,18 @@ func (s *Server) netServe() error {
 
 				// write to client
 				if len(client.out) > 0 {
+					verifPoint(s, "prewrite.test", client.id)
 					if s.aofdirty.Load() {
+						verifPoint(s, "prewrite.dirty", client.id)
 						func() {
 							// prewrite
 							s.mu.Lock()
 							defer s.mu.Unlock()
 							s.flushAOF(false)
 						}()
+						verifPoint(s, "prewrite.flushed", client.id)
 						s.aofdirty.Store(false)
+						verifPoint(s, "prewrite.cleared", client.id)
 					}
 					conn.Write(client.out)
 					client.out = nil
@@ -1248,6 +1254,7 @@ func (s *Server) handleInputCommand(client *Client, msg *Message) error {
 	case "monitor":
 		// No locking for monitor
 	}
+	defer verifCmdDone(s, client, msg, &write, verifCmdBegin(s, client, msg))
 	res, d, err := func() (res resp.Value, d commandDetails, err error) {
 		if msg.Deadline != nil {
 			if write {
